@@ -69,6 +69,7 @@ macro_rules! run_width {
                 near($cx, $c, "from_rotation_axis translation", stringify!($A3), &[0.0, 0.0, 0.0], &a3v[9..], 0.0);
                 // the same through from_axis_angle with the coordinate axis
                 near($cx, $c, "from_axis_angle(coordinate axis)", stringify!($M3), &exp, &f64s!($M3::from_axis_angle(axis, th).to_cols_array()), tol);
+                $( near($cx, $c, "from_axis_angle(coordinate axis)", stringify!($M3X), &exp, &f64s!($M3X::from_axis_angle(axis, th).to_cols_array()), tol); )*
                 near($cx, $c, "from_axis_angle(coordinate axis)", stringify!($Q), &exp, &f64s!($M3::from_quat($Q::from_axis_angle(axis, th)).to_cols_array()), tol);
                 // quaternion product of two half rotations = the rotation
                 let h = match ax { "X" => $Q::from_rotation_x(th * 0.5), "Y" => $Q::from_rotation_y(th * 0.5), _ => $Q::from_rotation_z(th * 0.5) };
@@ -82,6 +83,7 @@ macro_rules! run_width {
                 let av = ringv(&$c["v"]);
                 let axis = $V3::new(av[0] as $S, av[1] as $S, av[2] as $S).normalize();
                 near($cx, $c, "from_axis_angle", stringify!($M3), &exp, &f64s!($M3::from_axis_angle(axis, th).to_cols_array()), tol);
+                $( near($cx, $c, "from_axis_angle", stringify!($M3X), &exp, &f64s!($M3X::from_axis_angle(axis, th).to_cols_array()), tol); )*
                 $( near($cx, $c, "from_axis_angle", stringify!($M3X), &exp, &f64s!($M3X::from_axis_angle(axis, th).to_cols_array()), tol); )*
                 let m4v = f64s!($M4::from_axis_angle(axis, th).to_cols_array());
                 near($cx, $c, "from_axis_angle", stringify!($M4), &exp, &m3_of4(&m4v), tol);
@@ -136,6 +138,7 @@ macro_rules! run_width {
                 near($cx, $c, "from_angle translation", stringify!($A2), &[0.0, 0.0], &a2[4..], 0.0);
                 let m3 = f64s!($M3::from_angle(th).to_cols_array());
                 near($cx, $c, "from_angle (2d in 3x3)", stringify!($M3), &[exp[0], exp[1], 0.0, exp[2], exp[3], 0.0, 0.0, 0.0, 1.0], &m3, tol);
+                $( near($cx, $c, "from_angle (2d in 3x3)", stringify!($M3X), &[exp[0], exp[1], 0.0, exp[2], exp[3], 0.0, 0.0, 0.0, 1.0], &f64s!($M3X::from_angle(th).to_cols_array()), tol); )*
                 // rotating X by the angle gives (cos, sin); rotating Y gives (-sin, cos)
                 near($cx, $c, "rotate(X)", stringify!($V2), &exp[..2], &f64s!($V2::from_angle(th).rotate($V2::X).to_array()), tol);
                 near($cx, $c, "rotate(Y)", stringify!($V2), &exp[2..], &f64s!($V2::from_angle(th).rotate($V2::Y).to_array()), tol);
@@ -260,6 +263,8 @@ macro_rules! run_srt {
             near($cx, $c, "from_translation * from_angle * from_scale", stringify!($A2), &lin, &f64s!(prod.to_cols_array())[..4], tol);
             let mp = $M3::from_translation(t) * $M3::from_angle(th) * $M3::from_scale(s);
             near($cx, $c, "from_translation * from_angle * from_scale", stringify!($M3), &want3, &f64s!(mp.to_cols_array()), tol);
+            $( let mpx = $M3X::from_translation(t) * $M3X::from_angle(th) * $M3X::from_scale(s);
+               near($cx, $c, "from_translation * from_angle * from_scale", stringify!($M3X), &want3, &f64s!(mpx.to_cols_array()), tol); )*
             let rot = ringv(&e["rot"]);
             let at = f64s!($A2::from_angle_translation(th, t).to_cols_array());
             near($cx, $c, "from_angle_translation", stringify!($A2), &rot, &at[..4], $tol * 4.0);
@@ -320,6 +325,8 @@ macro_rules! run_cam {
             near($cx, $c, "look_to", stringify!($M3), &lin, &f64s!(m3.to_cols_array()), tol);
             let m3b = if rh { $M3::look_at_rh(e, center, u) } else { $M3::look_at_lh(e, center, u) };
             near($cx, $c, "look_at", stringify!($M3), &lin, &f64s!(m3b.to_cols_array()), tol);
+            $( let mxb = if rh { $M3X::look_at_rh(e, center, u) } else { $M3X::look_at_lh(e, center, u) };
+               near($cx, $c, "look_at", stringify!($M3X), &lin, &f64s!(mxb.to_cols_array()), tol); )*
             $( let mx = if rh { $M3X::look_to_rh(d, u) } else { $M3X::look_to_lh(d, u) };
                near($cx, $c, "look_to", stringify!($M3X), &lin, &f64s!(mx.to_cols_array()), tol); )*
         } else {
